@@ -11,11 +11,11 @@ Max2(a, b) == IF a >= b THEN a ELSE b
 TraceInit == CInit /\ l = 1
 
 TSession == /\ IsEvent("session") /\ cphase \in {"idle", "returned"}
-            /\ cphase' = "idle" /\ UNCHANGED <<blocks, bi, cst, ch>>
-TBegin   == IsEvent("cbegin") /\ CBeginCore(Ev.blocks) /\ UNCHANGED ch
+            /\ cphase' = "idle" /\ UNCHANGED <<blocks, bi, cst, quiet, dups, ch>>
+TBegin   == IsEvent("cbegin") /\ CBeginCore(Ev.blocks, {Ev.quiet[i] : i \in DOMAIN Ev.quiet}, Ev.dups) /\ UNCHANGED ch
 TStart   == IsEvent("cstart") /\ CStartCore(Ev.c) /\ UNCHANGED ch
 TEnd     == IsEvent("cend") /\ CEndCore(Ev.c, Ev.out) /\ UNCHANGED ch
-TAfter   == IsEvent("after") /\ CAfterCore(Ev.b) /\ UNCHANGED ch
+TAfter   == IsEvent("after") /\ CAfterCore(Ev.b, Ev.bumps) /\ UNCHANGED ch
 TSee     == IsEvent("see") /\ CSeeCore(Ev.c, Ev.val) /\ UNCHANGED ch
 TReturn  == IsEvent("creturn") /\ ~Ev.panic /\ CReturnCore(Ev.err) /\ UNCHANGED ch
 
@@ -33,7 +33,7 @@ TraceSkip ==
   /\ ~ENABLED TraceProper
   /\ TLCSet(2, Append(TLCGet(2), l))
   /\ l' = IF Trace[l].ev = "session" THEN l ELSE NextSession(l)
-  /\ blocks' = <<>> /\ bi' = 1 /\ cst' = <<>> /\ cphase' = "idle" /\ UNCHANGED ch
+  /\ blocks' = <<>> /\ bi' = 1 /\ cst' = <<>> /\ cphase' = "idle" /\ quiet' = {} /\ dups' = <<>> /\ UNCHANGED ch
 
 TraceNext == TraceProper \/ TraceSkip
 TraceSpec == TraceInit /\ [][TraceNext]_<<cvars, l>>
